@@ -23,6 +23,7 @@ nni_pollable_init(nni_pollable *p)
 {
 	nni_atomic_init_bool(&p->p_raised);
 	nni_atomic_set64(&p->p_fds, (uint64_t) -1);
+	nni_mtx_init(&p->p_mtx);
 }
 
 void
@@ -38,28 +39,38 @@ nni_pollable_fini(nni_pollable *p)
 		wfd = WFD(fds);
 		nni_plat_pipe_close(rfd, wfd);
 	}
+	nni_mtx_fini(&p->p_mtx);
 }
 
+// The flag and the content of the notification pipe are changed together
+// under p_mtx.  (Raise and clear are serialized by their callers, but the
+// first nni_pollable_getfd is not: without the lock it could write its
+// byte after a concurrent clear had already drained the pipe, leaving the
+// descriptor readable for ever.)
 void
 nni_pollable_raise(nni_pollable *p)
 {
+	nni_mtx_lock(&p->p_mtx);
 	if (!nni_atomic_swap_bool(&p->p_raised, true)) {
 		uint64_t fds;
 		if ((fds = nni_atomic_get64(&p->p_fds)) != (uint64_t) -1) {
 			nni_plat_pipe_raise(WFD(fds));
 		}
 	}
+	nni_mtx_unlock(&p->p_mtx);
 }
 
 void
 nni_pollable_clear(nni_pollable *p)
 {
+	nni_mtx_lock(&p->p_mtx);
 	if (nni_atomic_swap_bool(&p->p_raised, false)) {
 		uint64_t fds;
 		if ((fds = nni_atomic_get64(&p->p_fds)) != (uint64_t) -1) {
 			nni_plat_pipe_clear(RFD(fds));
 		}
 	}
+	nni_mtx_unlock(&p->p_mtx);
 }
 
 nng_err
@@ -84,13 +95,16 @@ nni_pollable_getfd(nni_pollable *p, int *fdp)
 		}
 		fds = FD_JOIN(wfd, rfd);
 
+		nni_mtx_lock(&p->p_mtx);
 		if (nni_atomic_cas64(&p->p_fds, (uint64_t) -1, fds)) {
 			if (nni_atomic_get_bool(&p->p_raised)) {
 				nni_plat_pipe_raise(wfd);
 			}
+			nni_mtx_unlock(&p->p_mtx);
 			*fdp = rfd;
 			return (NNG_OK);
 		}
+		nni_mtx_unlock(&p->p_mtx);
 
 		// Someone beat us.  Close ours, and try again.
 		nni_plat_pipe_close(wfd, rfd);
